@@ -11,6 +11,9 @@
  R-LOCK        WebSocketServer::_clients is only modified under its mutex
  C11.partial   the blocking socket read/write loops under receive()/send() pass exactly the remainder on retry and stop exactly at the
                requested total (a frame delivered in several TCP segments is still read whole)
+ C11.alive     Socket_::disconnected() interpreted against arrival scripts: data that arrives between its queries never makes a live
+               connection look closed; end of stream does
+ C11.sendstate send() calls nothing that closes the connection (stores `_closed`, closes the socket) before its socket write
  Byte-identical in-order delivery for all sizes and fragmentations is not decided."""
 import os
 import ir, q, bytesets
@@ -39,6 +42,8 @@ def run(ctx):
     check_clients(ctx, prog)
     check_zero_read(ctx, prog)
     check_frame_kept(ctx, prog, recv)
+    check_alive(ctx, prog)
+    check_send_effect(ctx, prog, send)
     import C16
     C16.check_partial(ctx, prog, rule='C11.partial', files=False)
     return __doc__.split('\n\n', 1)[1]
@@ -687,3 +692,100 @@ def check_frame_kept(ctx, prog, recv):
     ctx.check(bad is None, 'C11.kept', recv['pq'], role, fwhere(recv, bad[0] if bad else None), 'no exit between the payload read and the opcode dispatch other than on the result of the read',
               'receive() can return at line %s, after the payload was read, on `%s`: this is also true when the peer closed right after sending the frame, so a message that arrived completely is dropped (or a fragmented message loses its last fragment)' % (
                   bad[0] if bad else '', pe(bad[1])[:60] if bad else ''))
+
+
+def check_alive(ctx, prog):
+    """C11.alive: `Socket_::disconnected()` - the liveness test behind WebSocket::closed() - never reports a live connection as
+    closed, whenever data arrives relative to its queries, and reports a connection at end-of-stream as closed.  The function
+    is interpreted (scansim) with `available()` and `waitInput()` answered from a script of the socket's state at each query:
+    nothing pending until the k-th query and 1 or 5000 bytes from then on (k = 0..4, the peer still connected), and end of
+    stream (readable, nothing available) from the k-th query on."""
+    import scansim
+    f = fn1(prog, 'asl::Socket_::disconnected')
+    ctx.analysed(f)
+    role = 'disconnected():a live connection is never reported closed'
+    bad = und = None
+    runs = 0
+    for kind in ('data', 'eof'):
+        for k in range(0, 5):
+            for amount in ((1, 5000) if kind == 'data' else (0,)):
+                clock = [0]
+
+                def state():
+                    t = clock[0]
+                    clock[0] += 1
+                    return t >= k
+
+                def available(run, e, args):
+                    on = state()
+                    return amount if (on and kind == 'data') else 0
+
+                def wait_input(run, e, args):
+                    return 1 if state() else 0
+                r = scansim.Run(prog, f, {}, mems={'_handle': 3, '_error': 0, '_blocking': 1}, methods={'available': available, 'waitInput': wait_input, '*': 'interp'}, objects=True)
+                runs += 1
+                try:
+                    got = r.run()
+                except (scansim.Unsupported, scansim.OOB, TypeError, KeyError) as u:
+                    und = str(u)
+                    break
+                if kind == 'data' and got:
+                    bad = 'with nothing pending at its first %d quer%s and %d byte(s) arriving before the next one, disconnected() returns true for a connection the peer never closed: WebSocket::closed() closes the socket, the message being received is truncated and every later one lost' % (
+                        k, 'y' if k == 1 else 'ies', amount)
+                    break
+                if kind == 'eof' and k == 0 and not got:
+                    bad = 'at end of stream (readable, nothing available) disconnected() returns false: receive() never notices the close'
+                    break
+            if bad or und:
+                break
+        if bad or und:
+            break
+    ctx.evaluations += runs
+    if und:
+        ctx.undecided('C11.alive', f['pq'], role, fwhere(f), 'outside the interpreted fragment: %s' % und)
+    else:
+        ctx.check(bad is None, 'C11.alive', f['pq'], role, fwhere(f), 'interpreted for %d arrival scripts (data or end of stream appearing at the k-th query)' % runs, bad or '')
+
+
+def check_send_effect(ctx, prog, send):
+    """C11.sendstate: send() does not change the state of the connection before it writes.  Whether a frame goes out depends on
+    the state the application left (`_closed`), not on a fresh probe of the receiving direction: a peer that has finished
+    sending (half-close) still reads, and a probe that finds end-of-stream there and closes the socket drops the reply.  Effect
+    rule over the call graph: no function called by send() before its socket write (followed through members with bodies)
+    stores to `_closed` or closes the socket."""
+    order = list(fn_exprs(send))
+    writes = [i for i, e in enumerate(order) if e.get('k') == 'call' and (e.get('op') == '<<' or (e.get('pq') or '').split('::')[-1] == 'write') and any(w.get('k') == 'mem' and w.get('f') == '_socket' for w in walk_expr(e.get('obj') or {}))]
+    role = 'send():no state change before the write'
+    if not writes:
+        ctx.undecided('C11.sendstate', send['pq'], role, fwhere(send), 'socket write of send() not found')
+        return
+    first_write_line = min(order[i].get('l', 0) for i in writes)
+
+    def effects(g, depth, seen):
+        out = []
+        for e in fn_exprs(g):
+            if e.get('k') == 'bin' and e.get('op') == '=' and strip_lv(e['x']).get('k') == 'mem' and strip_lv(e['x']).get('f') == '_closed' and const_val(e['y']) != 0:
+                out.append('%s stores `_closed = true`' % g['n'])
+            if e.get('k') == 'call':
+                nm = (e.get('pq') or '').split('::')[-1]
+                if nm == 'close' and e.get('obj') is not None:
+                    out.append('%s calls `%s`' % (g['n'], pe(e)[:40]))
+                elif depth > 0 and e.get('fn'):
+                    for h in prog.fn(e['fn'], e.get('sig')):
+                        if h.get('body') and h.get('id') not in seen and (h.get('cls') or '').startswith(('asl::WebSocket', 'asl::Socket')):
+                            out += ['%s -> %s' % (g['n'], x) for x in effects(h, depth - 1, seen | set([h['id']]))]
+                            break
+        return out
+    found = []
+    n_calls = 0
+    for e in order:
+        if e.get('k') != 'call' or e.get('l', 0) >= first_write_line or not e.get('fn'):
+            continue
+        for h in prog.fn(e['fn'], e.get('sig')):
+            if h.get('body') and (h.get('cls') or '').startswith(('asl::WebSocket', 'asl::Socket')):
+                n_calls += 1
+                found += ['line %d: %s' % (e.get('l', 0), x) for x in effects(h, 3, set([h['id'], send['id']]))]
+                break
+    ctx.evaluations += n_calls + 1
+    ctx.check(not found, 'C11.sendstate', send['pq'], role, fwhere(send), '%d member call(s) before the write, none of which closes the connection' % n_calls,
+              'send() changes the connection state before writing (%s): once the peer has half-closed its sending side the probe sees end-of-stream, closes the socket and the message is silently dropped although the peer still reads' % (found[0] if found else ''))
